@@ -14,7 +14,7 @@ from .. import geom
 from ..common import rng
 
 TECHNIQUE = 'runtime differential monitor: independent longdouble forward model vs C/Python/numba routes; OpenMP thread-count differential'
-LEVEL_TEXT = 'Exploration: every route that computes lab coordinates/angles/g-vectors is executed on generated parameter classes (8 flips x 2^11 on/off switches; pairwise+random in quick, all 16384 classes in thorough) and compared value-by-value with an independent reference model; OpenMP loops re-run at 1..64 threads for bit-equality; f2py copy paths (float32/strided) included. Holds on the executions listed in the evidence, not for all inputs.'
+LEVEL_TEXT = 'Exploration: every route that computes lab coordinates/angles/g-vectors is executed on generated parameter classes (8 flips x 2^11 on/off switches; pairwise+random in quick, all 16384 classes in thorough) and compared value-by-value with an independent reference model; OpenMP loops re-run at 1..64 threads for bit-equality; f2py copy paths (float32/strided/Fortran-ordered) included; further entry points and input classes per case: integer-typed sc/fc/omega (columns and arrays), columnfile.updateGV fast/slow with xc/yc names and pars=, point_by_point.get_local_gv, Ctransform out= buffers and reset() after a parameter change, empty inputs (refusal recorded only), transform.PixelLUT tables. Holds on the executions listed in the evidence, not for all inputs.'
 LEVEL_NOTE = 'Trusts the harness model in vlib/geom.py, numpy longdouble arithmetic, and tolerances derived from conditioning (stated in evidence.assumptions).'
 
 RULE = ("parameter classes = 8 detector flips x 11 on/off switches (tilt_x, tilt_y, tilt_z, "
@@ -301,6 +301,174 @@ def one_case(run, seed, idx, flip, bits, n, mods):
             run.violation("f2py-copy:strided", "strided input gives different result", dict(desc, pars=p))
 
 
+def extras(run, seed, idx, flip, bits, n, mods):
+    """input classes and entry points the main case does not reach (added after the coverage audit): integer-typed pixel
+    positions (PixelLUT feeds np.mgrid indices), columnfile.updateGV, xc/yc column names and the pars= argument, the
+    point-by-point get_local_gv helper, Ctransform out= buffers and reset() after a parameter change, empty inputs,
+    Fortran-ordered / strided xyz."""
+    transform, columnfile, parameters, cImageD11, pbp = mods
+    r = rng(seed, "C01", "x", idx)
+    p = gen_pars(r, flip, bits)
+    sc, fc, om = gen_peaks(r, p, n)
+    desc = dict(index=idx, flip=flip, bits=bits, n=n, extras=True)
+    run.case(("extras", flip, bits), nontrivial=bin(bits).count("1") >= 2, sample=None)
+    t = (p["t_x"], p["t_y"], p["t_z"])
+    lam = p["wavelength"]
+    scale = abs(p["distance"]) + 2048 * (abs(p["y_size"]) + abs(p["z_size"]))
+    xyz_tol = 1e-10 * scale
+    g_tol = 1e-12 / lam
+    c = Cmp(run, p, desc)
+
+    # ---- a. integer pixel positions and integer omega: every route must treat them as the same numbers
+    sci = np.round(sc).astype([np.int64, np.int32, np.uint16][idx % 3])
+    fci = np.round(fc).astype([np.int32, np.int64, np.int64][idx % 3])
+    omi = np.round(om).astype(np.int64 if idx % 2 else np.float64)
+    refi = geom.forward(p, sci.astype(float), fci.astype(float), omi.astype(float), t)
+    xyzP = transform.compute_xyz_lab((sci, fci), **p)
+    xyzC = transform.Ctransform(p).sf2xyz(sci, fci)
+    for j, nm in enumerate(("xl", "yl", "zl")):
+        c.chk("transform.compute_xyz_lab(int pixels)", nm, xyzP[j], refi["xyz"][:, j], xyz_tol)
+        c.chk("Ctransform.sf2xyz(int pixels)", nm, xyzC[:, j], refi["xyz"][:, j], xyz_tol)
+    for fast in (True, False):
+        cf = columnfile.colfile_from_dict({"sc": sci.copy(), "fc": fci.copy(), "omega": omi.copy()})
+        cf.parameters = parameters.parameters(**p)
+        cf.updateGeometry(fast=fast)
+        for j, nm in enumerate(("xl", "yl", "zl")):
+            c.chk("columnfile.updateGeometry(fast=%s, int columns)" % fast, nm, cf.getcolumn(nm), refi["xyz"][:, j], xyz_tol)
+        for j, nm in enumerate(("gx", "gy", "gz")):
+            c.chk("columnfile.updateGeometry(fast=%s, int columns)" % fast, nm, cf.getcolumn(nm), refi["g"][:, j], g_tol)
+    run.count("integer_input_cases")
+
+    # ---- b. updateGV (fast: only g; slow: delegates), xc/yc names, pars= argument
+    ref = geom.forward(p, sc, fc, om, t)
+    for fast in (True, False):
+        for use_tr in (False, True):
+            names = ("xc", "yc") if (idx + fast + use_tr) % 2 else ("sc", "fc")
+            cf = columnfile.colfile_from_dict({names[0]: sc.copy(), names[1]: fc.copy(), "omega": om.copy()})
+            pp = dict(p, t_x=0.0, t_y=0.0, t_z=0.0) if use_tr else dict(p)
+            if idx % 2:
+                cf.updateGV(pars=parameters.parameters(**pp), translation=t if use_tr else None, fast=fast)
+            else:
+                cf.parameters = parameters.parameters(**pp)
+                cf.updateGV(translation=t if use_tr else None, fast=fast)
+            for j, nm in enumerate(("gx", "gy", "gz")):
+                c.chk("columnfile.updateGV(fast=%s,translation=%s,%s)" % (fast, use_tr, names[0]), nm, cf.getcolumn(nm),
+                      ref["g"][:, j], g_tol)
+            run.count("updateGV_calls")
+
+    # ---- c. get_local_gv: g-vectors for a voxel (si, sj) of the sample grid, diffraction origin moved along x
+    old = pbp.parglobal
+    try:
+        pbp.parglobal = parameters.parameters(**p)
+        si, sj = int(r.integers(-20, 21)), int(r.integers(-20, 21))
+        ystep = float(r.choice([1.0, 2.5, 10.0]))
+        oms = np.radians(om * p["omegasign"])
+        xyz = np.asarray(ref["xyz"], float)
+        gv, gx, gy, gz = pbp.get_local_gv(si, sj, ystep, om, np.sin(oms), np.cos(oms),
+                                          xyz[:, 0].copy(), xyz[:, 1].copy(), xyz[:, 2].copy())
+        sx, sy = si * ystep, -sj * ystep
+        shifted = np.array(ref["xyz"], np.longdouble).copy()
+        shifted[:, 0] -= sx * np.cos(oms) - sy * np.sin(oms)
+        want = geom.lab_to_geometry(p, shifted, om, (0.0, 0.0, 0.0))["g"]
+        for j, (nm, col) in enumerate((("gx", gx), ("gy", gy), ("gz", gz))):
+            c.chk("point_by_point.get_local_gv", nm, col, want[:, j], g_tol * 10)
+        run.count("get_local_gv_calls")
+    finally:
+        pbp.parglobal = old
+
+    # ---- d. Ctransform: out= buffers are filled and returned; reset() after changing pars gives the new geometry
+    ct = transform.Ctransform(p)
+    out3 = np.full((n, 3), np.nan)
+    got = ct.sf2xyz(sc, fc, out=out3)
+    if got is not out3 or not np.array_equal(out3, ct.sf2xyz(sc, fc)):
+        run.violation("Ctransform:out-argument", "sf2xyz(out=) did not fill / return the supplied buffer", dict(desc, pars=p))
+    og = np.full((n, 3), np.nan)
+    ct.xyz2gv(out3, om, *t, out=og)
+    o6 = np.full((n, 6), np.nan)
+    ct.xyz2geometry(out3, om, *t, out=o6)
+    o2 = np.full((n, 3), np.nan)
+    ct.sf2gv(sc, fc, om, *t, out=o2)
+    if not (np.array_equal(og, ct.xyz2gv(out3, om, *t)) and np.array_equal(o6, ct.xyz2geometry(out3, om, *t))
+            and np.array_equal(o2, og)):
+        run.violation("Ctransform:out-argument", "xyz2gv/xyz2geometry/sf2gv(out=) differ from the returned arrays",
+                      dict(desc, pars=p))
+    p2 = gen_pars(rng(seed, "C01", "x2", idx), (flip + 3) % 8, bits ^ 0x2b5)
+    for k in ct.pnames:
+        ct.pars[k] = p2[k]
+    ct.reset()
+    t2 = (p2["t_x"], p2["t_y"], p2["t_z"])
+    ref2 = geom.forward(p2, sc, fc, om, t2)
+    xyz2 = ct.sf2xyz(sc, fc)
+    g2 = ct.xyz2gv(xyz2, om, *t2)
+    sc2 = abs(p2["distance"]) + 2048 * (abs(p2["y_size"]) + abs(p2["z_size"]))
+    for j, nm in enumerate(("xl", "yl", "zl")):
+        c.chk("Ctransform after pars change + reset()", nm, xyz2[:, j], ref2["xyz"][:, j], 1e-10 * sc2)
+    for j, nm in enumerate(("gx", "gy", "gz")):
+        c.chk("Ctransform after pars change + reset()", nm, g2[:, j], ref2["g"][:, j], 1e-12 / p2["wavelength"])
+    run.count("reset_histories")
+
+    # ---- e. empty inputs: every route returns empty results of the right shape
+    if idx % 4 == 0:
+        e = np.zeros(0)
+        try:
+            ct0 = transform.Ctransform(p)
+            x0 = ct0.sf2xyz(e, e)
+            g0 = ct0.xyz2gv(x0, e, *t)
+            q0 = ct0.xyz2geometry(x0, e, *t)
+            xp = transform.compute_xyz_lab(np.zeros((2, 0)), **p)
+            ok = x0.shape == (0, 3) and g0.shape == (0, 3) and q0.shape == (0, 6) and xp.shape == (3, 0)
+            if not ok:
+                run.violation("empty-input:shape", "empty peak list gives shapes %r %r %r %r"
+                              % (x0.shape, g0.shape, q0.shape, xp.shape), dict(desc, pars=p))
+        except Exception as ex:
+            # the statement quantifies over peaks: refusing an empty list (f2py rejects zero-length arrays) is not a wrong
+            # value; it is recorded as an observation only
+            run.count("empty_input_refused")
+            run.extra["empty_input_refusal"] = "%s: %s" % (type(ex).__name__, ex)
+        run.count("empty_input_cases")
+
+    # ---- f. Fortran-ordered and strided xyz (refinegrains passes transposed copies)
+    ct = transform.Ctransform(p)
+    xyzc = ct.sf2xyz(sc, fc)
+    gref = ct.xyz2gv(xyzc, om, *t)
+    qref = ct.xyz2geometry(xyzc, om, *t)
+    xf = np.asfortranarray(xyzc)
+    wide = np.zeros((n, 6))
+    wide[:, ::2] = xyzc
+    xs = wide[:, ::2]
+    for nm, arr in (("fortran", xf), ("strided", xs)):
+        if not (np.array_equal(ct.xyz2gv(arr, om, *t), gref) and np.array_equal(ct.xyz2geometry(arr, om, *t), qref)):
+            run.violation("f2py-copy:xyz-" + nm, "%s-ordered xyz gives a different result from the contiguous copy" % nm,
+                          dict(desc, pars=p))
+    run.count("xyz_layout_cases")
+
+
+def pixel_lut_case(run, seed, idx, mods):
+    transform = mods[0]
+    r = rng(seed, "C01", "lut", idx)
+    p = gen_pars(r, int(r.integers(8)), int(r.integers(1 << len(SW))))
+    shape = (int(r.integers(2, 40)), int(r.integers(2, 40)))
+    pars = dict(p, shape=shape)
+    run.case(("PixelLUT", shape), nontrivial=True, sample=None)
+    desc = dict(index=idx, lut=True, shape=shape)
+    lut = transform.PixelLUT(pars)
+    s, f = np.mgrid[0:shape[0], 0:shape[1]]
+    # the LUT has no omega: angles are those of the pixel seen from the origin (no grain translation)
+    ref = geom.forward(p, s.ravel().astype(float), f.ravel().astype(float), np.zeros(s.size), (0.0, 0.0, 0.0))
+    c = Cmp(run, p, desc)
+    scale = abs(p["distance"]) + 2048 * (abs(p["y_size"]) + abs(p["z_size"]))
+    d = ref["d"]
+    rperp = np.sqrt(np.asarray(d[:, 1] ** 2 + d[:, 2] ** 2, float))
+    for j, nm in enumerate(("xl", "yl", "zl")):
+        c.chk("PixelLUT.xyz", nm, lut.xyz[j].ravel(), ref["xyz"][:, j], 1e-10 * scale)
+    c.chk("PixelLUT.tth", "tth", lut.tth.ravel(), ref["tth"], 1e-9 + 1e-6 / np.sqrt(np.asarray((d * d).sum(axis=1), float)))
+    c.chk("PixelLUT.eta", "eta", lut.eta.ravel(), ref["eta"], 1e-9 + 1e-6 / np.maximum(rperp, 1e-3), mask=rperp > 1e-3,
+          angle=True)
+    st = np.sin(np.radians(np.asarray(ref["tth"], float)) / 2) ** 2
+    c.chk("PixelLUT.sinthsq", "sinthsq", lut.sinthsq.ravel(), st, 1e-12 + 1e-9 * st)
+    run.count("pixel_lut_cases")
+
+
 def check(run, replay=None):
     from ImageD11 import transform, columnfile, parameters, cImageD11
     from ImageD11.sinograms import point_by_point as pbp
@@ -313,7 +481,12 @@ def check(run, replay=None):
     seed = run.seed
     if replay is not None:
         cs = replay["case"]
-        one_case(run, replay["seed"], cs["index"], cs["flip"], cs["bits"], cs["n"], mods)
+        if cs.get("lut"):
+            pixel_lut_case(run, replay["seed"], cs["index"], mods)
+        elif cs.get("extras"):
+            extras(run, replay["seed"], cs["index"], cs["flip"], cs["bits"], cs["n"], mods)
+        else:
+            one_case(run, replay["seed"], cs["index"], cs["flip"], cs["bits"], cs["n"], mods)
         run.nontrivial.update(["replay", "replay2"])
         return
     r = rng(seed, "C01", "plan")
@@ -340,6 +513,13 @@ def check(run, replay=None):
         if idx % 97 == 0:
             n = 5000
         one_case(run, seed, idx, f, b, n, mods)
+        if run.tier != "quick" or idx % 3 == 0:
+            extras(run, seed, idx, f, b, n, mods)
+    for i in range(20 if run.tier == "quick" else 600):
+        pixel_lut_case(run, seed, i, mods)
+    for cn, k in (("integer_input_cases", 50), ("updateGV_calls", 200), ("get_local_gv_calls", 50), ("reset_histories", 50),
+                  ("empty_input_cases", 10), ("xyz_layout_cases", 50), ("pixel_lut_cases", 10)):
+        run.require_counter(cn, k)
     run.extra["classes_planned"] = len(set(plan))
     for nthr in (2, 4, 8):
         python_threads(run, seed + nthr, mods, nthr, 40 if run.tier == "quick" else 400)
